@@ -34,7 +34,11 @@ type modelReply struct {
 
 type stats struct {
 	pops, popOK, popErr, filtered, stalePops, fired, syncs int
+	kind, class                                          string // of the failure, when runCase returns false
 }
+
+// after a failure has been seen, waiting for quiescence is cut short (the tree is not the unchanged one)
+var quiesceTimeout = 10 * time.Second
 
 func readable(cs Case) string {
 	var b strings.Builder
@@ -87,6 +91,7 @@ func unhexAll(l []string) []string {
 // runCase plays one history on the real code and on the model. It returns false when the case fails (judge or diff).
 func runCase(c *rig.Ctx, cs Case, record bool, st *stats) bool {
 	fail := func(kind, class, what string, impl, model interface{}) bool {
+		st.kind, st.class = kind, class
 		if record {
 			c.Fail(rig.Failure{Kind: kind, Class: class, What: what + " | history: " + readable(cs), Case: cs, Impl: impl, Model: model})
 		}
@@ -110,6 +115,7 @@ func runCase(c *rig.Ctx, cs Case, record bool, st *stats) bool {
 		return fail("diff", "c03.leftover-goroutines", "health-check workers of a stopped cluster are still alive", nil, nil)
 	}
 	w := lib.NewWorld()
+	w.Timeout = quiesceTimeout
 	defer w.Stop()
 	ops := make([]lib.Op, len(cs.Ops))
 	copy(ops, cs.Ops)
@@ -216,6 +222,7 @@ func runCase(c *rig.Ctx, cs Case, record bool, st *stats) bool {
 			What: fmt.Sprintf("op %d (%s) answered %s with fired probes [%s]: the property's judge rejects it (%s)", at, ops[at].Op, lib.CanonOut(impl[at].Out), lib.CanonFired(impl[at].Fired), m.ImplBad.What)}
 	}
 	if judgeFail != nil {
+		st.kind, st.class = "judge", judgeFail.Class
 		if record {
 			judgeFail.Case = cs
 			judgeFail.What += " | history: " + readable(cs)
@@ -271,9 +278,12 @@ func runCase(c *rig.Ctx, cs Case, record bool, st *stats) bool {
 	return true
 }
 
-func shrink(c *rig.Ctx, cs Case) Case {
-	var st stats
-	cs.Ops = rig.ShrinkList(cs.Ops, func(l []lib.Op) bool { return !runCase(c, Case{Ops: l}, false, &st) })
+// shrink minimises a failing history, keeping the kind of failure (a judge failure must stay a judge failure of the same class).
+func shrink(c *rig.Ctx, cs Case, kind, class string) Case {
+	cs.Ops = rig.ShrinkList(cs.Ops, func(l []lib.Op) bool {
+		var st stats
+		return !runCase(c, Case{Ops: l}, false, &st) && st.kind == kind && (kind != "judge" || st.class == class)
+	})
 	return cs
 }
 
@@ -308,7 +318,12 @@ func main() {
 		}
 		n := c.Budget(400, 20000)
 		var total stats
-		for i := 0; i < n && c.NFailures() < 3; i++ {
+		diffs, judged := 0, false
+		var deadline time.Time
+		for i := 0; i < n && !judged; i++ {
+			if !deadline.IsZero() && time.Now().After(deadline) {
+				break
+			}
 			cs := genCase(c)
 			var st stats
 			ok := runCase(c, cs, false, &st)
@@ -322,7 +337,18 @@ func main() {
 			total.fired += st.fired
 			total.syncs += st.syncs
 			if !ok {
-				runCase(c, shrink(c, cs), true, &st)
+				// a failure: from now on look (for a bounded time) for an input on which the property itself fails
+				quiesceTimeout = 2 * time.Second
+				if deadline.IsZero() {
+					deadline = time.Now().Add(map[bool]time.Duration{false: 40 * time.Second, true: 5 * time.Minute}[c.Thorough()])
+				}
+				if st.kind == "judge" {
+					judged = true
+					runCase(c, shrink(c, cs, st.kind, st.class), true, &st)
+				} else if diffs < 2 {
+					diffs++
+					runCase(c, shrink(c, cs, st.kind, st.class), true, &st)
+				}
 			}
 		}
 		c.SetExtra("pops", total.pops)
